@@ -12,6 +12,7 @@ import (
 
 type consumptions struct {
 	sync.Map
+	l     sync.Mutex // 保证 Map 的增删与 count 的修改是一个整体
 	count int32
 }
 
@@ -24,6 +25,9 @@ func (m *consumptions) SendToAll(p Pack, keyframe bool) {
 }
 
 func (m *consumptions) RemoveAndCloseAll() {
+	m.l.Lock()
+	defer m.l.Unlock()
+
 	m.Range(func(key, value interface{}) bool {
 		c := value.(*consumption)
 		m.Delete(key)
@@ -35,11 +39,17 @@ func (m *consumptions) RemoveAndCloseAll() {
 }
 
 func (m *consumptions) Add(c *consumption) {
+	m.l.Lock()
+	defer m.l.Unlock()
+
 	m.Store(c.cid, c)
 	atomic.AddInt32(&m.count, 1)
 }
 
 func (m *consumptions) Remove(cid CID) *consumption {
+	m.l.Lock()
+	defer m.l.Unlock()
+
 	ci, ok := m.Load(cid)
 	if ok {
 		m.Delete(cid)
